@@ -477,6 +477,11 @@ func derivCheck(f *Fam, p Params, x float64, report func(Failure), tried *int) {
 	if math.IsInf(ref, 0) || math.IsNaN(ref) {
 		return
 	}
+	for _, a := range p.Ps {
+		if a != 0 && math.Abs(a) < 1.0/16 {
+			return // near-boundary shapes: a central difference is not a usable reference
+		}
+	}
 	n := len(p.Ps)
 	if f.Name == "FTransNormal" || f.Name == "FLogTransNormal" {
 		n = 2
@@ -632,7 +637,8 @@ func cdfChecks(f *Fam, p Params, report func(Failure), tried *int, extra []float
 			report(Failure{f.Name, "cdf-log", "LogCdf", p, x, fmt.Sprintf("%v", lv), fmt.Sprintf("ln Cdf = %v", math.Log(v))})
 		}
 		if i < len(xs)-len(extra) && i > 0 && v < prev-1e-12 {
-			report(Failure{f.Name, "cdf-mono", "Cdf", p, x, fmt.Sprintf("Cdf(%v)=%v > Cdf(%v)=%v", prevx, prev, x, v), "non-decreasing"})
+			// witness point: the earlier (larger-valued) point
+			report(Failure{f.Name, "cdf-mono", "Cdf", p, prevx, fmt.Sprintf("Cdf(%v)=%v > Cdf(%v)=%v", prevx, prev, x, v), "non-decreasing"})
 		}
 		if i < len(xs)-len(extra) {
 			prev, prevx = v, x
@@ -667,7 +673,7 @@ func cdfChecks(f *Fam, p Params, report func(Failure), tried *int, extra []float
 			report(Failure{f.Name, "cdf-limits", "Cdf", p, left, fmt.Sprintf("%v", v), "0 at the left end"})
 		}
 		// heavy tails (Cauchy-like shapes) approach 1 slowly: 1e-2 is enough to see a wrong limit
-		if v := cdf(right); !(math.Abs(v-1) < 1e-2) && !(f.Name == "FPareto" && p.Ps[1] < 0.25) && !((f.Name == "FGPareto" || f.Name == "FGev") && p.Ps[2] > 1) {
+		if v := cdf(right); !(math.Abs(v-1) < 1e-2) && !(f.Name == "FPareto" && p.Ps[1] < 0.5) && !((f.Name == "FGPareto" || f.Name == "FGev") && p.Ps[2] > 1) {
 			report(Failure{f.Name, "cdf-limits", "Cdf", p, right, fmt.Sprintf("%v", v), "1 at the right end"})
 		}
 	}
